@@ -137,7 +137,10 @@ class Prop(PropBase):
             from astropy.time import Time
 
             L = case["L"]
-            t0 = Time("2020-01-01T00:00:00", precision=9)
+            # the stamp may live on any time scale a Time can have (also the free-running 'local' one): it is kept as it is
+            t0 = [Time("2020-01-01T00:00:00", precision=9), Time("2020-01-01T00:00:00", scale="local", precision=9),
+                  Time("2018-07-07T07:07:07.7", scale="tai", precision=9), Time("2021-03-04T05:06:07.123456789", scale="tcb", precision=9),
+                  Time("2020-01-01T00:00:00", precision=9)][L % 5]
             z = pb.Signal(np.arange(L, dtype=np.float64), sample_rate=1 * u.kHz, start_time=t0)
             try:
                 y = pb.fast_len(z)
@@ -152,7 +155,7 @@ class Prop(PropBase):
                     got = np.asarray(yd.data.compute())
                     ok_data = ok_data and len(yd) == len(y) and got.shape == (len(y),) and bool(np.array_equal(got, np.arange(len(y)))) \
                         and isinstance(yd.data, da.Array)
-                return {"len": len(y), "data_prefix": ok_data, "start_same": bool(dt < 1e-10),
+                return {"len": len(y), "data_prefix": ok_data, "start_same": bool(dt < 1e-10 and y.start_time.scale == t0.scale),
                         "rate_same": bool(y.sample_rate == z.sample_rate)}
             except Exception as e:
                 return {"err": err_name(e)}
